@@ -490,6 +490,16 @@ def cases(draw):
             else:
                 y, mo, d, h, mi, s, us = R.fields_from_us(exp)
                 c["ref"] = ["dt", y, mo, d, h, mi, s, us, 0, None]
+            if draw(st.integers(0, 2)) == 0:
+                # a single-field corruption of that valid text instead: outside the notation, must be refused
+                from pbt.checks.c09 import corruptions
+
+                f2 = dict(f, notation=f["notation"])
+                cs = corruptions(f2, c["text"])
+                if cs:
+                    nm, bad = cs[draw(st.integers(0, len(cs) - 1))]
+                    c.pop("ref", None)
+                    c.update(text=bad, expect="reject", keysuffix="/" + nm)
         elif op in ("bad-value", "bad-native"):
             opts = [["str", "not a date"], ["int", 20200101], ["naive-time", 1, 2, 3] if is_time else ["naive-dt", 2020, 1, 2, 3, 4, 5], ["date", 2020, 1, 2], ["bytes", "20200101"]]
             if op == "bad-value":
